@@ -30,6 +30,7 @@ KF_NOTE = {
     "KF-C03-pv-sticky": "ptrrecv-nonaddr",
     "KF-C03-depth-limit": "deep",
     "KF-C03-quoted-string-escape": "quoted-string-special",
+    "KF-C03-eager-type-check": "badkey/badomit",
 }
 
 
@@ -47,6 +48,8 @@ def classify(feats, backend, impl_r, std_o):
         return "KF-C03-depth-limit"
     if "quoted-string-special" in feats:
         return "KF-C03-quoted-string-escape"
+    if ("badkey" in feats or "badomit" in feats) and impl_r[:2] == ["err", "unsupported"] and std_o[0] == "ok":
+        return "KF-C03-eager-type-check"
     return None
 
 
@@ -77,7 +80,7 @@ def run(ctx):
     if not mok:
         problems.append(("T", "model extraction/driver build failed: " + mexe[-1200:]))
     d = L.work("C03")
-    n = 1200 if ctx.tier == "quick" else 40000
+    n = 1200 if ctx.tier == "quick" else 60000
     only = None
     if ctx.replay:
         try:
